@@ -142,3 +142,38 @@ def t_ravm_search():
 
 
 ALL += [("ravm", t_ravm), ("ravm_search", t_ravm_search)]
+
+
+def t_rops_shuffle_windows():
+    """R-OPS' (pops, pushes) of the shuffling opcodes against their data-movement semantics:
+    only the top `pops` values may change and the height changes by pushes - pops."""
+    from vf.props.c11 import RefStack, ref_step
+
+    for name in ("pop", "dup", "dup2", "swap"):
+        _one_shuffle(name, [], RefStack, ref_step)
+    for name in ("dig", "cover", "uncover", "popn", "dupn"):
+        for n in range(0, 13):
+            _one_shuffle(name, [n], RefStack, ref_step)
+    for n in range(1, 13):
+        _one_shuffle("bury", [n], RefStack, ref_step)
+    # spot checks of the semantics themselves
+    s = RefStack(); s.push(list("abc")); ref_step(s, 0, "dig", [2]); assert s.items == list("abca")
+    s = RefStack(); s.push(list("abc")); ref_step(s, 0, "cover", [2]); assert s.items == list("cab")
+    s = RefStack(); s.push(list("abc")); ref_step(s, 0, "uncover", [2]); assert s.items == list("bca")
+    s = RefStack(); s.push(list("abc")); ref_step(s, 0, "bury", [2]); assert s.items == list("cb")
+    s = RefStack(); s.push(list("abc")); ref_step(s, 0, "bury", [1]); assert s.items == list("ac")
+    s = RefStack(); s.push(list("ab")); ref_step(s, 0, "dupn", [2]); assert s.items == list("abbb")
+
+
+def _one_shuffle(name, vals, RefStack, ref_step):
+    depth = 20
+    s = RefStack()
+    s.push([("x", i) for i in range(depth)])
+    base = list(s.items)
+    ref_step(s, 0, name, vals)
+    p, q = rops.pops(name, vals), rops.pushes(name, vals)
+    assert len(s.items) == depth - p + q, (name, vals, len(s.items))
+    assert s.items[: depth - p] == base[: depth - p], (name, vals)
+
+
+ALL += [("rops_shuffle_windows", t_rops_shuffle_windows)]
